@@ -5,6 +5,10 @@ import json, subprocess
 BASELINE = json.load(open('/root/.vp/BASELINE.json'))['cmd']
 
 CHECKS = {
+ "C19": dict(level="exploration", design="DESIGN.md §4 C19",
+   text="For every program of the product raising operation x operand values (including values longer than the 20-character abbreviation, arrays, functions, multi-line strings) x failure site (top level, call depth 1..4 with reassigned parameters, through function-valued parameters and closures, loop bodies, generators, nested generators, zips, built-ins), and for every failing member of the operand-source x statement-context product, the captured report is parsed and compared with the reference model's record of the failure: class, the single marked instruction (which must be the one the step hook saw last and belong to the failing operation's family), operand values in source order, and per context the active calls innermost first with call-site names and current parameter values.",
+   note="Trusts the reference model's failure record (operation, operands, active calls per coroutine) and the report grammar read off the documented sample; context addresses are not compared.",
+   technique="bounded exhaustive enumeration of failing programs with the report text parsed and compared against an executable reference model's failure trace"),
  "C17": dict(level="exploration", design="DESIGN.md §4 C17",
    text="The contracts of the eight built-ins are checked on every element of finite argument alphabets: toa against write for 57 values of every kind and nesting, aton(toa(n)) == n for boundary ints and 210 finite floats, fromto over all pairs in -3..3 and at both ends of the int range, elems/indices (alone and zipped) over every array and string of length 0..4, wrong kinds and arities, and - through the built binary - every stdin of up to 3 lines (with and without final line break) against 0..4 read() calls in -eval and file mode, plus exit() with valid and invalid arguments.",
    note="Expected results are computed by the reference model's value rendering and the stated contracts; argument values outside the alphabets are not covered.",
@@ -80,7 +84,7 @@ CHECKS = {
 }
 
 PROPS = [json.loads(l)['id'] for l in open('/verif/properties.jsonl')]
-NOT_YET = "check not built yet in this tree (planned per DESIGN.md §4); nothing is claimed for it"
+NOT_YET = "not claimed"
 
 def main():
     hooks = subprocess.run(['git','-C','/repo','log','--format=%h %s'],capture_output=True,text=True).stdout.splitlines()
